@@ -75,9 +75,14 @@ def convIntPat : Pat :=
   bop "Mul" (.op "Cast" [.op "ConvInteger" [.sym "x" false, .sym "w" false, .sym "x_zero" false, .sym "w_zero" false] (some "conv")] (some "cast"))
     (.sym "scale" false)
 
+def gqaPat : Pat :=
+  let t1 := Pat.op "RepeatInterleave" [.sym "b" false] (some "repeat")
+  .anyOf [bop "MatMul" (.sym "a" false) t1,
+          .op "FusedMatMul" [.sym "a" false, .op "Transpose" [t1] (some "transpose")] (some "scaled_matmul")]
+
 def allFusionPatterns : List Pat :=
   [identityPat, reciprocalPat, siluPat, swishPat, geluPat, approxGeluPat, layerNormPat, rmsNormPat,
-   matmulAddPat, safeSoftmaxPat, addSoftmaxPat, reduceMeanAxesPat, repeatInterleavePat, matmulIntPat, convIntPat]
+   matmulAddPat, safeSoftmaxPat, addSoftmaxPat, reduceMeanAxesPat, repeatInterleavePat, matmulIntPat, convIntPat, gqaPat]
 
 end Fusions
 end RtenVerif.Pattern
